@@ -5,10 +5,11 @@ CONSTANTS Accts = {"a1", "a2"}
           NFees = 2
           MaxBlocks = 1
           MaxInc = 1
-          NBal = 1
+          NBal = 0
           NTips = 1
           Cap = 2
           HistLen = 0
+          Foreign = FALSE
           Crash = FALSE
 INVARIANTS NonceContiguous AffordableTotal IndexMatchesStore LimboRetains LimboSound PerAccountLimit
 PROPERTIES TipRespected ReopenReproduces WithinCapacity
